@@ -76,6 +76,32 @@ class W(World):
                 raise Violation("wrong_error", f"BufferedError.files names {[os.path.basename(n) for n in got]}, expected exactly {[os.path.basename(n) for n in names]}")
 
     def after_exit(self, c, cls, flushed, res, pre):
+        if c["kind"] == "backend" and self.backend_depth.get(cls, 0) > 0 and c.get("cap") is not None and c["cap_before"] == 0:
+            # leaving an INNER buffer_backend(big) whose enclosing context runs with capacity 0: giving the capacity back forces a
+            # flush of everything buffered (like set_buffer_capacity(0)); a conflict makes THIS exit raise BufferedError, and
+            # the capacity must be the enclosing one all the same
+            mine = [r.rid for r in self.res if self.cls_of(r.family, r.kind) is cls and r.bufstate is not None]
+            size_positive = any(self.res[rid].bufstate["modified"] for rid in mine) if self.cfg["strategy"] == "memory" else bool(mine)
+            conflicting = self.conflicts(mine) if size_positive else []
+            if conflicting:
+                self.probe("restore_forced_flush_conflict")
+            self.stat("fault_forced_flush")
+            self.check_exc(res, "backend", conflicting, "leaving the inner buffer_backend(capacity) (the restored capacity 0 forces a flush)")
+            if size_positive:
+                for rid in mine:
+                    r = self.res[rid]
+                    b = r.bufstate
+                    if self.cfg["strategy"] == "serialized":
+                        self.settle(rid, True)
+                    elif b["modified"] and not b["changed_after"]:
+                        r.disk = deep(r.model)
+                        b["modified"] = False
+                    elif b["modified"]:
+                        b["modified"], b["changed_after"] = False, True
+            if cls.get_buffer_capacity() != 0:
+                raise Violation("capacity_not_restored", f"capacity {cls.get_buffer_capacity()} after leaving the inner buffer_backend({c['cap']}), the enclosing context runs with 0")
+            self.check_backend(what="after the inner context exit")
+            return
         rids = sorted({ob.rid for ob in flushed})
         conflicting = self.conflicts(rids)
         clean_mod = [rid for rid in rids if self.res[rid].bufstate is not None and self.res[rid].bufstate["modified"] and rid not in conflicting]
@@ -261,7 +287,7 @@ WorldClass = W
 def make_cfg(rs, tier):
     cfg = _buf.base_cfg(rs, ID, nres=rs.choice([1, 2, 3, 4]))
     cfg.update(capmode="huge", forced_flush_possible=False, oracles=["backend"], kinds=[G.pick(rs, ["dict", "list"]) for _ in range(4)],
-               shape=rs.choice(["obj", "backend", "nested", "backend"]), forced=rs.random() < 0.35,
+               shape=rs.choice(["obj", "backend", "nested", "backend", "backend2"]), forced=rs.random() < 0.35,
                roles=[rs.choice(["modified", "modified", "readonly", "untouched"]) for _ in range(4)],
                outside=[rs.choice(["before", "after", "after", "never"]) for _ in range(4)], bcap=rs.choice([None, None, 10**6]),
                prior_cap=rs.choice([None, None, 0, 0, 1, 7]))
@@ -297,6 +323,13 @@ def drive(w, rg, emit):
         if cfg["outside"][rid] == "before":
             outside(rid)
     # enter
+    if cfg["shape"] == "backend2":
+        # an outer backend-wide context with capacity 0 and, right inside it, an inner one with a big capacity: every buffered
+        # access happens in the inner one; leaving it hands the capacity 0 back, which forces the flush
+        for k in kinds:
+            emit({"t": "enter", "ctx": "backend", "family": cfg["family"], "kind": k, "cap": 0})
+        for k in kinds:
+            emit({"t": "enter", "ctx": "backend", "family": cfg["family"], "kind": k, "cap": 10**6})
     if cfg["shape"] in ("backend", "nested"):
         for k in kinds:
             st = {"t": "enter", "ctx": "backend", "family": cfg["family"], "kind": k}
